@@ -471,6 +471,52 @@ def run_call(fn, parser):
     return res + [clean(out.getvalue()), error_part(clean(err.getvalue()))]
 
 
+def exit_mode_part(h):
+    """The same statement for parsers built with exit_on_error=True (the default of the library), where a failing or printing call ends
+    with SystemExit that a caller (a test, a REPL, a wrapper) may catch: a sub-command tool whose parsers all exit, one history step, then
+    every parse method compared with a fresh parser."""
+    from jsonargparse import ActionConfigFile, ArgumentParser
+
+    def build():
+        p = ArgumentParser(exit_on_error=True, prog="app", env_prefix="XAPP", default_env=False)
+        p.add_argument("--cfg", action=ActionConfigFile)
+        p.add_argument("--verbose", type=bool, default=False)
+        fit = ArgumentParser(exit_on_error=True)
+        fit.add_argument("--lr", type=float, default=0.1)
+        fit.add_argument("--tags", type=List[str], default=[])
+        sc = p.add_subcommands(required=True)
+        sc.add_subcommand("fit", fit)
+        return p
+
+    history = {
+        "pc_then_unknown_in_the_subcommand!": lambda p: p.parse_args(["--print_config", "fit", "--nope=1"]),
+        "pc_then_bad_value_in_the_subcommand!": lambda p: p.parse_args(["--print_config", "fit", "--lr=x"]),
+        "pc_then_help": lambda p: p.parse_args(["--print_config", "--help"]),
+        "pc_then_subcommand_help": lambda p: p.parse_args(["--print_config", "fit", "--help"]),
+        "pc_then_unknown_subcommand!": lambda p: p.parse_args(["--print_config", "nope"]),
+        "pc_in_the_subcommand_then_bad_value!": lambda p: p.parse_args(["fit", "--print_config", "--lr=x"]),
+        "pc": lambda p: p.parse_args(["--print_config", "fit"]),
+        "help": lambda p: p.parse_args(["--help"]),
+        "bad_value!": lambda p: p.parse_args(["fit", "--lr=x"]),
+        "cfg_bad!": lambda p: p.parse_args(["--cfg", "{fit: {lr: x}}"]),
+        "obj_bad!": lambda p: p.parse_object({"fit": {"nope": 1}}),
+    }
+    probes = {
+        "args": lambda p: p.parse_args(["fit", "--lr=0.5"]), "obj": lambda p: p.parse_object({"fit": {"lr": 0.5}}), "str": lambda p: p.parse_string("fit: {lr: 0.5}"),
+        "env": lambda p: p.parse_env({"XAPP_FIT__LR": "0.5"}), "defaults": lambda p: p.get_defaults(), "args_bad!": lambda p: p.parse_args(["fit", "--lr=x"]),
+        "dump": lambda p: p.dump(ns({"verbose": False, "subcommand": "fit", "fit": {"lr": 0.5, "tags": []}})),
+    }
+    for hname, step in history.items():
+        for pname, probe in probes.items():
+            used = build()
+            run_call(step, used)
+            got, want = run_call(probe, used), run_call(probe, build())
+            h.check(got == want, f"c09:exit-mode:{hname}->{pname}:{kind_of_outcome(want)}->{kind_of_outcome(got)}",
+                    f"after {hname} (SystemExit caught by the caller) the call {pname} gives {summary(got)}; a fresh parser gives {summary(want)}",
+                    {"parser": "exit_on_error=True: --cfg, --verbose, subcommand fit(--lr: float, --tags: List[str])", "history": hname, "call": pname})
+            h.nontrivial(("exit-mode", hname, pname))
+
+
 def kind_of_outcome(o):
     return "ok" if o[0] == "ok" else f"exit{o[1]}" if o[0] == "exit" else f"exc:{o[1]}"
 
@@ -942,6 +988,8 @@ def main():
                         "within-kind histories of length 1: every step -> ~15 representative calls per kind and 8 suspicious steps -> every call; within-kind "
                         "length 2 and cross-kind length 1 with 3 suspicious steps per kind as history -> representative calls; B2 -> B with 5 suspicious "
                         "steps; 40 fixed long histories"))
+        exit_mode_part(h)
+        bound += "; exit_on_error=True parsers: 11 one-step histories (SystemExit caught) x 7 calls against a fresh parser"
     finally:
         os.environ.clear()
         os.environ.update(env0)
